@@ -8,7 +8,8 @@ VERIF = os.path.dirname(os.path.dirname(os.path.abspath(__file__)))
 
 COMMON_NOTE = ("Trusted: Lean 4.33 kernel; the hand-written Lean model (lean/Pathrs) and its tie to /repo "
                "(recorder shim src/verif.rs below the syscall wrappers, libc symbol interposition of close/fcntl/readlink, "
-               "transcript replay by lean/Main.lean); the harness generators; Linux 6.18 as the environment. ")
+               "transcript replay by lean/Main.lean; the recorder itself is cross-checked against strace by tools/strace_tie.py where the "
+               "check says so); the harness generators; Linux 6.18 as the environment. ")
 
 CLAIMS = {
     "C01": dict(
@@ -19,15 +20,20 @@ CLAIMS = {
              "the same object or the same errno (simulation proof by induction over the walk); the kernel backend's retry loop "
              "returns the kernel's answer; Root::readlink returns the body of that object or EINVAL; every successful result has "
              "a path below the root; a self-referencing link gives ELOOP for any spent budget and both the walk and the "
-             "specification are total functions (termination measure: link budget, remaining components). Tie: generated trees "
+             "specification are total functions (termination measure: link budget, remaining components); Root::open_subpath on "
+             "either backend is that resolution (no-follow iff O_NOFOLLOW) followed by open(2) of the object found "
+             "(World.openKind), the emulated one through Handle::reopen via /proc/thread-self/fd/<n> (C01_open_subpath, "
+             "KOpen.run_reopen), and returns only objects inside the root. Tie: generated trees "
              "x path spellings x flag sets on both backends with and without openat2, replayed call-by-call through the same "
              "model programs. Oracle: every lookup is compared with a raw openat2(RESOLVE_IN_ROOT|RESOLVE_NO_MAGICLINKS) issued "
              "by the harness on the same tree (object identity or errno).",
         note="The World's answers (Kernel/World.lean: fd-relative single-component lookup, d_path rendering of "
              "/proc/thread-self/fd/N, kresolve as the meaning of RESOLVE_IN_ROOT) are the trusted statement of kernel behaviour; "
              "the raw-openat2 oracle of the suite compares that specification's subject with the live kernel on every generated "
-             "case. One-shot open_subpath flag handling is covered by the tie and oracle plus the reopen theorems of C05/C09, not "
-             "by a World-level theorem.",
+             "case (resolve, readlink and open_subpath: World.openKind too). The status flags (F_GETFL) of the descriptor a "
+             "one-shot open returns are not represented in World: tie and oracle. Known finding F23: between 41 and 127 link "
+             "traversals the emulated backend resolves what openat2 refuses with ELOOP (budget 128 vs MAXSYMLINKS 40); boundary "
+             "cases of 39/40/41 links and link bodies of 4095/4094 bytes run on every check.",
         technique="Lean 4 proof (simulation of the emulated walk against a kernel specification, fun_induction) + transcript replay + live-kernel openat2 oracle",
         ref="DESIGN.md §8 C01"),
     "C02": dict(
@@ -54,13 +60,17 @@ CLAIMS = {
              "parameter is the link budget (kernel 40, emulated 128); kresolve_limit_mono proves a larger budget changes nothing "
              "unless the smaller was exhausted, so resolve / resolve_nofollow / readlink (and every parent lookup) return the "
              "same object or errno on both backends whenever the kernel does not answer ELOOP (every lookup with at most 40 "
-             "traversals), unconditionally with NO_SYMLINKS. Tie and oracle: every generated operation (lookups, one-shot open "
+             "traversals), unconditionally with NO_SYMLINKS; C04_open_agree: the one-shot open returns the same object or errno on "
+             "both backends; C04_partial_agree: the two partial lookups behind mkdir_all — the emulated walk with its symlink "
+             "stack (KSimStack.walk_sim_stack: the stack operations never fail, the reported position is the outermost link in "
+             "progress) and the kernel backend's probing of ever shorter prefixes over partial_ancestors "
+             "(Ancestors.partialAncestors_eq, KProbe.anc_probe) — hand mkdir_all the same directory and the same components to "
+             "create, or the same error. Tie and oracle: every generated operation (lookups, one-shot open "
              "flag sets, readlink, create*, mkdir_all, remove_*, rename) is executed on identical trees with the kernel and "
              "the emulated backend and replayed through the model; results, errno classes, access mode/status flags/FD_CLOEXEC of "
              "returned descriptors (O_NOFOLLOW echo excluded) and the resulting tree snapshots are compared pairwise.",
-        note="theorem partial: equivalence of the two *partial* lookups behind mkdir_all (symlink stack vs. ancestor probing) and "
-             "of the one-shot open's flag emulation is decided by the pairwise differential on generated inputs and the "
-             "transcript tie, not by an unbounded theorem.",
+        note="Not in World: the status flags of descriptors returned by the one-shot open, and the mutating operations' effects "
+             "(C12-C14): decided by the pairwise differential on generated inputs and the transcript tie.",
         technique="Lean 4 proof (both backends equal one specification; budget monotonicity) + pairwise backend differential",
         ref="DESIGN.md §8 C04"),
     "C03": dict(
@@ -96,7 +106,11 @@ CLAIMS = {
              "namespace, subsets of 12 over-mounts (tmpfs, foreign file, other procfs object on files, directories, symlinks, "
              "magic-links) x 7 handle kinds x both resolvers x {open, open_follow, readlink}: transcripts replayed through the model; "
              "a visible over-mount must give EXDEV, the over-mounting object's identity must never be returned, private handles "
-             "must answer as on the pristine layout.",
+             "must answer as on the pristine layout; with the over-mounts in place every mount-id/fs-type probe of a lookup fails in turn "
+             "with ENOSYS, EINVAL, EACCES and the over-mounted object must still never be returned (the verification fails closed); "
+             "the handle constructors (new, new_unmasked and the explicit ones) are recorded and replayed as root, as root of a "
+             "user namespace that cannot fsopen procfs, and as uid 65534: whoever can create a private procfs instance gets one "
+             "from new().",
         note="MntIdTruthful (statx mount ids identify mounts) is the kernel fact the theorem rests on. open_follow on a non-magic "
              "procfs symlink whose *target* is over-mounted returns the over-mount (finding F12, known, not repaired). Racing "
              "mounts are covered by the theorem (any answers), not by the suite.",
@@ -129,9 +143,13 @@ CLAIMS = {
              "(decimal rendering round-trips); reopen with creation flags is a bare error leaf; otherwise reopen is exactly "
              "fstat -> ELOOP for a symlink -> open_follow(thread-self, fd/<n>, flags without O_NOFOLLOW) on libpathrs' own procfs "
              "handle; for every environment a symlink answer ends the run with ELOOP and no further call; O_NOFOLLOW is stripped "
-             "and no other bit changes. Tie and oracle: handles to every inode type x forced descriptor numbers 0..1023 x "
+             "and no other bit changes; C09_no_fallback_on_unrelated_failure: for every environment a successful open_follow had a "
+             "readlink probe that succeeded or failed with exactly EINVAL/ENOENT — any other probe failure is the result, never an "
+             "O_NOFOLLOW open of the magic-link itself (finding F22, repaired); on a world, reopen returns the handle's own object "
+             "(KOpen.run_reopen). Tie and oracle: handles to every inode type x forced descriptor numbers 0..1023 x "
              "rename/replace/unlink histories x flag sets: replayed; (st_dev, st_ino), access mode, status flags and FD_CLOEXEC of "
-             "the result vs the handle.",
+             "the result vs the handle; reopen under single injected faults (every index x 12 errnos x {file, dir, fifo} x 4 flag "
+             "sets): an error or the handle's inode, never another object.",
         note="That thread-self/fd/<n> leads to the inode of descriptor n is the kernel's magic-link contract (MagicLinkSameInode), "
              "exercised by the tie. Over-mounts on /proc: corollary of C06 (the link is verified with verify_same_mnt).",
         technique="Lean 4 proof (total/injective function, program shape, run inversion) + descriptor-number x history differential",
@@ -147,12 +165,18 @@ CLAIMS = {
              "unperturbed syscall trace x 12 errnos (single faults), descriptor exhaustion from every index, and EAGAIN on every in-root "
              "openat2, injected below the wrappers by the interposer; every run is replayed through the model (which must predict the "
              "same error path call by call) and checked for: no panic, descriptor table unchanged, nothing outside the root changed, "
-             "no success reported for work not done (independent openat2 look-up afterwards), EAGAIN-forever never succeeds. First-use "
+             "no success reported for work not done (independent openat2 look-up afterwards), EAGAIN-forever never succeeds; "
+             "aftermath oracle: after the fault sweep of a case the same operation without any fault behaves exactly as before "
+             "(a fault leaves nothing behind in the process; on a difference the case is re-run in a fresh process to find the first "
+             "poisoning schedule); reopen under single faults (C09's oracle). First-use "
              "initialisation: the same single faults and exhaustion in forked fresh processes (no panic, no death, later calls recover).",
         note="Finding F9d (first use under descriptor exhaustion panicked in the global procfs handle's Lazy and poisoned it) was found "
              "by this suite and repaired. Panics inside error-message construction when the diagnostic /proc reads themselves fail "
              "repeatedly are outside the single-fault quantifier and are modelled (Err.panic) rather than proved absent. An injected "
-             "ENOENT on remove_all is tolerated by design (C13) and exempt from the work-done oracle.",
+             "ENOENT on remove_all is tolerated by design (C13) and exempt from the work-done oracle; likewise an injected "
+             "ENOENT/EINVAL in open_follow's readlink probe (the kernel's words for 'no such file'/'not a symlink', on which the "
+             "no-follow open is the design). Finding F22 (any probe failure selected the no-follow open: reopen(O_PATH) under a "
+             "fault returned the magic-link) was found by the reopen-fault suite and repaired.",
         technique="Lean 4 proof (run inversion: failure answers never become success; bounded retry; fail-closed comparisons) + exhaustive single-fault injection replayed through the model",
         ref="DESIGN.md §8 C10"),
     "C11": dict(
@@ -177,7 +201,10 @@ CLAIMS = {
              "environments incl. racing callers); rely/guarantee convergence (C12_converges, Proofs/Rely.lean): against a mutable "
              "kernel state with environment steps interleaved before every system call that only add directories (any number of other "
              "mkdir_all callers), the creating loop succeeds, returns the directory reached by walking the components in the final "
-             "state, and the whole history incl. its own steps only added directories, so N callers compose. Tie and oracle: mkdir_all on generated trees/paths (existing prefixes through links, "
+             "state, and the whole history incl. its own steps only added directories, so N callers compose; C12_target_is_spec "
+             "(refinement against the kernel specification): on an unmodified tree the partial lookup — on either backend — hands "
+             "the creating loop the object after the longest resolvable prefix of the path and exactly the remaining components "
+             "that are not ''/'.'. Tie and oracle: mkdir_all on generated trees/paths (existing prefixes through links, "
              "'..' in the existing part, dangling links, non-directories in the way) on both backends, replayed through the model; "
              "exact-effect oracle: nothing removed or modified, additions are directories forming one chain that starts in an "
              "existing directory and ends at the returned handle, the handle is the live kernel's in-root resolution of the path, "
@@ -214,7 +241,9 @@ CLAIMS = {
              "as split by path_split; exactly one mutating *at call on (that descriptor, final name) which the kernel acknowledged — for "
              "create_file one openat with O_CREAT|O_NOFOLLOW|O_CLOEXEC|O_NOCTTY whose answer is the returned descriptor; closing the "
              "parent(s); nothing else. The final name is one non-empty slash-free component; a trailing slash never reaches the mutating "
-             "call (C03_trailing_slash_*). Tie and oracle: generator of mostly-applicable single-entry operations (existing entries "
+             "call (C03_trailing_slash_*); C14_parent_is_spec / C14_parent_inside_root: when the parent lookup's answers come from a "
+             "well-formed world, that descriptor is World.resolveInRoot of the parent path (the meaning of openat2 RESOLVE_IN_ROOT) on "
+             "either backend and lies inside the root's tree. Tie and oracle: generator of mostly-applicable single-entry operations (existing entries "
              "spelled plainly, through '..' detours, through links to the parent, with leading slash; fresh and existing destinations; "
              "all rename flags) plus the adversarial generator, both backends, replayed through the model; exact-effect oracle: the "
              "snapshot after = snapshot before with exactly the entry (kernel-resolved parent, name) created/removed/moved/exchanged "
